@@ -26,7 +26,7 @@ def ask_side(eng, v):
                '%s (%s ask, size %s): transfers differ from the spec; unexpected: %s; missing: %s' % (
                    v, 'approved convertible' if ready else 'plain or pending', 'supplied' if supplied else 'whole remainder',
                    [(K(d), dom.show(a), K(t)) for d, a, t in ua], [(K(d), dom.show(a), K(t)) for d, a, t in ue]),
-               where=(trs[0]['call_site'] if trs else None), detail=p.describe(),
+               where=(trs[0].get('call_site') if trs else None), detail=p.describe(),
                sample={'rule': 'transfers', 'request': v, 'expected': [(K(d), K(a), K(t)) for d, a, t in exp]})
         # bookkeeping
         recs = written_record(p, 'ask')
@@ -93,7 +93,7 @@ def bid_side(eng, v):
                '%s (size %s, %s): transfers differ from the spec; unexpected: %s; missing: %s' % (
                    v, 'supplied' if supplied else 'whole remainder', 'fee-bearing' if has_fee else 'no fee',
                    [(K(d), dom.show(a), K(t)) for d, a, t in ua], [(K(d), dom.show(a), K(t)) for d, a, t in ue]),
-               where=(trs[0]['call_site'] if trs else None), detail=p.describe(),
+               where=(trs[0].get('call_site') if trs else None), detail=p.describe(),
                sample={'rule': 'transfers', 'request': v, 'expected': [(K(d), K(a), K(t)) for d, a, t in exp]})
         recs = written_record(p, 'bid')
         eng.ob(len(recs) == 1 and len(p.writes) == 1, PROP, 'one-write', v, '%s: expected exactly one write (the named bid), found %s' % (v, [(w['op'], w['ns']) for w in p.writes]), detail=p.describe())
